@@ -29,10 +29,11 @@ def harnesses(tier):
     hh = Harness('h_header', 'token', unwind=16, timeout=300 if tier == 'quick' else 2400, mem_gb=24, bounds='full-form text header, the 25 mandatory counts symbolic decimal digits, the 10 optional ones concrete distinct digits', assumptions=['header skeleton (line structure, spaces, AMPL options 3 1 1 0, digits of the optional fields) concrete; 25 mandatory counts symbolic digits'], tv_cases=50, flags=['--object-bits', '12'], unwindset=['h_header.0:90', 'h_header.1:50'],
                  claims='TextReader::ReadHeader: every NLHeader field receives the number the NL format puts at its place (num_compl_conds = sum of the two complementarity counts), cursor ends after the tenth line')
     if tier != 'quick': hs.append(hh)      # > 5 min: the optional-number tests keep symbolic execution busy even with concrete optional digits
-    SH = {1: 'C b', 2: 'b L', 3: 'O b', 4: 'V b', 5: 'b F', 6: 'b J', 7: 'G b', 8: 'b r', 9: 'k b', 10: 'b x', 11: 'b d', 12: 'S0 b', 13: 'b S5', 14: 'b S2', 15: 'b S7', 16: 'V C b', 17: 'b J r'}
+    SH = {1: 'C b', 2: 'b L', 3: 'O b', 4: 'V b', 5: 'b F', 6: 'b J', 7: 'G b', 8: 'b r', 9: 'k b', 10: 'b x', 11: 'b d', 12: 'S0 b', 13: 'b S5', 14: 'b S2', 15: 'b S7', 16: 'V C b', 17: 'b J r', 18: 'C(sum3) b', 19: 'b C(min3)', 20: 'C(call2) b', 21: 'b C(plterm2)', 22: 'C(if) b', 23: 'b L(or)'}
     AS = ['file = token script of the enumerated segment sequence (token kinds and read positions concrete); every index, count that does not change the layout, sense and number symbolic (31-bit / any double); header: 2 variables, 2 algebraic constraints, 0..3 objectives / logical constraints / functions, 0..2 common expressions (symbolic)',
-          'token layer = symbolic reader with the contract decided by the token harnesses above; expressions: a reference, a number, one unary / relational operator over them']
+          'token layer = symbolic reader with the contract decided by the token harnesses above; expressions: a reference, a number, one unary / relational operator over them, a sum / min of 3 references, a call with 2 arguments, a piecewise-linear term with 2 breakpoints, if-then-else, logical or (one level)']
     for k in sorted(SH):
+        if tier == 'quick' and k >= 18: continue      # one-level iterated / call / PL / if / or expressions: 5-10 min each, thorough tier
         h = Harness('h_segments', 'seg', unwind=10, timeout=300 if tier == 'quick' else 1200, mem_gb=16, defines=['SHAPE=%d' % k], tv_cases=0, bounds='segments %s' % SH[k], assumptions=AS, flags=['--object-bits', '10'],
                     claims='NLReader::Read: handler receives exactly the items of the file, in order, every index within the header range; out-of-range index/count <=> read error')
         h.label = 'h_segments[%s]' % SH[k].replace(' ', ''); hs.append(h)
